@@ -58,6 +58,7 @@ type pOpts struct {
 	NoSigHandler *bool        `json:"nosighandler,omitempty"` // default true
 	NoSignals    bool         `json:"nosignals,omitempty"`
 	NoRenderer   bool         `json:"norenderer,omitempty"`
+	Compressor   bool         `json:"compressor,omitempty"` // WithANSICompressor
 	Filter       *pFilterSpec `json:"filter,omitempty"`
 }
 
@@ -85,6 +86,9 @@ type pView struct {
 	// pause (and optionally panic in) the first View that follows the Update of this message key; label view:after:<key>
 	PauseAfter string `json:"pause_after,omitempty"`
 	PanicAfter string `json:"panic_after,omitempty"`
+	// the view is "view <version>" on line At (0-based) of Pad+1 lines, the others constant ("row 00 ........")
+	Pad int `json:"pad,omitempty"`
+	At  int `json:"at,omitempty"`
 }
 
 type pStep struct {
